@@ -364,7 +364,7 @@ struct Emit
   FILE * f;
   Rng & r;
 
-  Tangent tan(int i, int kind) { return Gen<G>::tangent(r, i % N_ANGLE_STRATA, kind, (i / N_ANGLE_STRATA) + r.below(5)); }
+  Tangent tan(int i, int kind) { return Gen<G>::tangent(r, i % N_ANGLE_STRATA, kind, (i / N_ANGLE_STRATA) + r.below(6)); }
   const char * tag(int i) { return angle_stratum_name(i % N_ANGLE_STRATA); }
 
   // group elements: exp of a stratified tangent, sometimes composed (so that products with
@@ -413,14 +413,16 @@ struct Emit
       go("compose3l", t, g1.coeffs(), g2.coeffs(), g3.coeffs());
       go("compose3r", t, g1.coeffs(), g2.coeffs(), g3.coeffs());
       go("inverse", t, g1.coeffs());
+      const Tangent a2 = tan(i, 2);
       {
-        const G gl = G::exp(al);
+        const G gl = G::exp(a2);
         go("log", t, gl.coeffs());
-        const G gp = gl * G::exp(tan(i + 3, 1) * S(0.3));
+        const G gp = G::exp(al) * G::exp(tan(i + 3, 1) * S(0.3));
         go("log", "product", gp.coeffs());
+        go("log", t, g1.coeffs());
       }
       go("exp", t, a);
-      go("logexp", t, al);
+      go("logexp", t, a2);
       go("hat", t, a);
       {
         const typename G::Matrix A = G::hat(a);
